@@ -84,6 +84,10 @@ fn report(run: &Run, p: Prof, s: &str) {
     sc.frozen = true;
     if let Err(v) = check(run, p, &t, &mut sc) {
         run.violate(v);
+    } else if let Err(v) = check(run, p, s, &mut Local::scratch()) {
+        // the shrunk copy (a freshly allocated String) passes: the failure depends on the argument as it was handed over (e.g. the
+        // address of a &str view); reported as found
+        run.violate(v);
     }
 }
 
